@@ -98,6 +98,12 @@ func seqBody(w *World, cfg seqCfg) *kernel.Violation {
 		return v
 	}
 	r.BranchOps = cfg.BranchOps
+	if cfg.RecheckOld {
+		// In half of the time-travel runs the issuing client never queries,
+		// so that snapshot files exist only where an operation itself had to
+		// derive one and readers must fold the rest from the commit chain.
+		r.NoClientScans = w.Kn.Chance(1, 2)
+	}
 	nops := w.Kn.Range(1, cfg.MaxOps)
 	for i := 0; i < nops; i++ {
 		op, v := r.Step(w.Wl, i, cfg.RecheckOld)
